@@ -210,7 +210,7 @@ func c18Directed(r *hx.Run, cw *c18World, ps *plans, rnd *rand.Rand, n int) {
 		wg.Add(1)
 		go func() { defer wg.Done(); res[0] = cw.Cl.Do(rq) }()
 		if !hx.WaitUntil(15*time.Second, func() bool { return cw.Farm.InflightKey(key) == 1 }) {
-			r.Inconclusive("C18 directed: fetch not at origin")
+			r.InconclusiveCase("C18 directed: fetch not at origin")
 			close(gate)
 			wg.Wait()
 			continue
@@ -242,7 +242,7 @@ func c18Directed(r *hx.Run, cw *c18World, ps *plans, rnd *rand.Rand, n int) {
 			hangSeen(r)
 			r.Violate("purge_blocked_behind_fetch", nil, "the purge did not return while the fetch was held at the origin", pr.Brief(), cs)
 		} else if !(pr.RetSeq < releaseSeq && stillHeld) {
-			r.Inconclusive("C18 directed: fetch ended before the purge was observed")
+			r.InconclusiveCase("C18 directed: fetch ended before the purge was observed")
 		} else if pr.Status != 204 {
 			r.Violate("purge_failed", map[string]string{"variant": "during_fetch"}, fmt.Sprintf("purge answered %d", pr.Status), pr.Brief(), cs)
 		}
@@ -284,7 +284,7 @@ func c18SlowStore(r *hx.Run, cw *c18World, ps *plans, rnd *rand.Rand, n int) {
 			// (a) slow delete: a lookup arrives while the purge is between LRU removal and the end of the store delete
 			first := cw.Cl.Do(rq)
 			if first.Label != "fetching" {
-				r.Inconclusive("C18 slow store: first request not a fetch")
+				r.InconclusiveCase("C18 slow store: first request not a fetch")
 				continue
 			}
 			cw.slowDelete.Store(int64(60 * time.Millisecond))
